@@ -61,6 +61,17 @@ def run(ctx):
             docs.append(c); dmeta[c['id']] = (f['name'], ex)
     impl, model, mism = common.correspond(cases + corpus)
     dimpl = lib.run_harness(docs)
+    # parse_selection is not modelled; its meaning is stated by a relation instead: (parse_selection "<text of e>") is e, on every row
+    # (several different rows per run: a value frozen at parse time would show)
+    pscases = []; psmeta = []
+    rowsets = [b'null\n{"a":1,"b":[1,2]}\n"str"\n[3,4,5]\n7\n', b'{"a":{"b":2}}\n{"a":"x","arr":[{"k":1}]}\ntrue\n']
+    for i in range(60 if ctx['tier'] == 'quick' else 1500):
+        e = g.expr(rnd.choice([1, 2, 3])) if i % 3 else rnd.choice(['.', '(default .a 0)', '(string? .)', '(number? .)', '.a', '(size .)', '(? (array? .) (take . 1) .)'])
+        lit = '"' + e.replace('\\', '\\\\').replace('"', '\\"') + '"'
+        data = rowsets[i % 2]
+        a = mkcase('PSa%d' % i, lib.new_cfg(select=['(parse_selection %s)=x' % lit]), data); b = mkcase('PSb%d' % i, lib.new_cfg(select=[e + '=x']), data)
+        pscases += [a, b]; psmeta.append((e, a, b))
+    psimpl = lib.run_harness(pscases)
     violations = []; checked = 0
     for c in cases + corpus:
         a = impl[c['id']]
@@ -81,7 +92,13 @@ def run(ctx):
             except Exception: continue
             if not has or not jeq(got, exp):
                 violations.append(viol(c, 'documentation example of %s' % name, json.dumps(got) if has else 'nothing', ex['output']))
-    cov = {'evaluations': len(cases) + len(corpus) + len(docs), 'distinct_nontrivial': common.nontrivial_count(cases + corpus, impl),
+    for e, a, b in psmeta:
+        ra, rb = psimpl[a['id']], psimpl[b['id']]
+        if rb['result'] != 'ok': continue
+        checked += 1
+        if (ra['result'], ra['stdout']) != (rb['result'], rb['stdout']):
+            v = viol(a, '(parse_selection "e") evaluates as e on every row', ra['result'] + ' ' + ra['stdout'].decode('utf8', 'replace')[:300], rb['stdout'].decode('utf8', 'replace')[:300]); violations.append(v)
+    cov = {'evaluations': len(cases) + len(corpus) + len(docs) + len(pscases), 'distinct_nontrivial': common.nontrivial_count(cases + corpus, impl),
            'rule': 'random expressions of depth <= 5 over the modelled functions with random aliases, comma/space separators and the leading-dot sugar x inputs of all six types; the curated corpora of the function models; the %d documentation examples harvested from the source (run on the implementation against their documented output)' % len(docs),
            'samples': [common.describe(c) for c in cases[:3]], 'function_usage': g.usage,
            'functions_exercised': len(g.usage),
